@@ -18,7 +18,8 @@ RULE = ("case = (generated trans block [context string, trimmed/notrimmed, 0-3 b
         "[plain/if/for/macro/block], data) x (old|new style) x (autoescape on|off) x (policy "
         "ext.i18n.trimmed on|off); + a table of gettext/ngettext/pgettext/npgettext expression "
         "calls. distinct = distinct (style, autoescape, policy, ctx?, trim flag, binding kinds, "
-        "plural mode, text feature set, wrapper) tuples of blocks with >=1 text piece")
+        "plural mode, text feature set, wrapper, tag whitespace control) tuples of blocks with a "
+        "non-empty singular body")
 LEVEL_TEXT = ("held (modulo listed known findings) on K generated block renders: output == model "
               "text, recorded count argument == model count, every runtime message in both "
               "extractors' output; generated blocks only")
@@ -31,18 +32,21 @@ ASSUMPTIONS = [
 NSHARDS = {"quick": 16, "thorough": 16}
 BUDGET_S = {"quick": 12, "thorough": 300}
 FLOORS = {
-    "quick": {"evaluations": 4000, "distinct": 2500,
-              "counters": {"render_checks": 3500, "extract_ast_checks": 3500,
-                           "extract_babel_checks": 3500, "plural_blocks": 1200,
-                           "count_arg_checks": 1200, "style:old": 1500, "style:new": 1500,
-                           "autoescape_on": 1500, "trimmed_effective": 1200, "ctx_blocks": 1000,
-                           "pct_blocks": 1200, "exprcall_checks": 100}},
-    "thorough": {"evaluations": 100000, "distinct": 8000,
-                 "counters": {"render_checks": 90000, "extract_ast_checks": 90000,
-                              "extract_babel_checks": 90000, "plural_blocks": 30000,
-                              "count_arg_checks": 30000, "style:old": 40000, "style:new": 40000,
-                              "autoescape_on": 40000, "trimmed_effective": 20000,
-                              "ctx_blocks": 15000, "pct_blocks": 30000, "exprcall_checks": 100}},
+    # quick is time-boxed: 19k-33k evaluations on a machine loaded 3x, more when idle
+    "quick": {"evaluations": 4500, "distinct": 4000,
+              "counters": {"render_checks": 4400, "extract_ast_checks": 5000,
+                           "extract_babel_checks": 5000, "plural_blocks": 2000,
+                           "count_arg_checks": 2200, "style:old": 2200, "style:new": 2200,
+                           "autoescape_on": 2200, "trimmed_effective": 2200, "ctx_blocks": 2200,
+                           "pct_blocks": 2200, "exprcall_checks": 200}},
+    # thorough: 1.70M evaluations / 817k distinct (count-bounded) at load ~1x,
+    # 571k / 340k (time-boxed) at load ~5x; floors = 1/4 of the latter
+    "thorough": {"evaluations": 150000, "distinct": 85000,
+                 "counters": {"render_checks": 150000, "extract_ast_checks": 165000,
+                              "extract_babel_checks": 165000, "plural_blocks": 64000,
+                              "count_arg_checks": 75000, "style:old": 70000, "style:new": 70000,
+                              "autoescape_on": 70000, "trimmed_effective": 70000,
+                              "ctx_blocks": 70000, "pct_blocks": 70000, "exprcall_checks": 200}},
 }
 
 NAMES = ["user", "count", "num", "n", "title", "who", "x"]
@@ -575,8 +579,11 @@ def check_exprcall(ctx, i):
         ctx.violation(f"exprcall-raises:{type(e).__name__}:{style}", f"{src!r}: {e}", case)
         return
     if got != exp:
-        ctx.violation(f"exprcall-mismatch:{style}:{i}", f"{src!r} rendered {got!r}, documented "
-                                                        f"{exp!r}", case)
+        # mechanism = which documented function / mode, not the table index
+        m = re.search(r"\b(n?p?gettext|_)\(", src)
+        ctx.violation(f"exprcall-mismatch:{style}:{m.group(1) if m else '?'}"
+                      + (":autoescape" if autoescape else ""),
+                      f"{src!r} rendered {got!r}, documented {exp!r}", case)
     ex_ast, ex_babel = extracted_sets(env, src, newstyle, False)
     for fn, strs, n in rec.calls:
         if strs not in ex_ast:
